@@ -57,6 +57,12 @@ Theorem c14_integerise_exact : forall med scale dist x,
 Proof. exact int_cell_exact. Qed.
 Print Assumptions c14_integerise_exact.
 
+(* on exactly recomputed z_min / z_max the spec demands offset = -floor(z_min) * floor(n_bins / (z_max - floor(z_min))) *)
+Theorem c14_shift_exact : forall nb zmin zmax off, Qle_bool (zmax - inject_Z (Qfloor zmin)) 0 = false ->
+  shift_ok nb zmin zmin zmax zmax off = (off =? offset_def nb zmin zmax).
+Proof. exact shift_exact. Qed.
+Print Assumptions c14_shift_exact.
+
 (* the preconditions are satisfiable and the theorem is not vacuous: a 2-column query against
    targets of lengths 1, 3, 2 (one shorter, one longer, one equal), with a zero similarity *)
 Definition ex_call : call :=
